@@ -129,6 +129,10 @@ func (k Keeper) GetNextSuperNodes(ctx sdk.Context, status uint32, reputation flo
 	}
 
 	snodes := k.GetAllSuperNodes(ctx)
+	if int(round[0]) >= len(snodes) {
+		// the cursor outlived the super nodes it pointed at: start over, or the scan below never meets its stop mark
+		round = []byte{0}
+	}
 	i := uint8(round[0])
 	if len(snodes) > 0 {
 		for {
